@@ -290,8 +290,10 @@ fn stream_inner(c: &FCase, st: &mut Stats) -> Result<(), String> {
                     if r.is_err() {
                         return Err(format!("{}: refused ({:?}) although the peer's last advertised window has {} free bytes (buf_alloc {}, {} in flight)", what, r, free, drv_view_alloc, in_flight));
                     }
-                    if tx.len() != 1 || tx[0].op != 5 || tx[0].payload != data {
-                        return Err(format!("{}: transmitted {:?}; expected one RW packet with the caller's {} bytes", what, tx.iter().map(|p| (p.op, p.len)).collect::<Vec<_>>(), n));
+                    // any packetisation will do: RW packets only, carrying the caller's bytes in order
+                    let sent: Vec<u8> = tx.iter().flat_map(|p| p.payload.iter().copied()).collect();
+                    if tx.iter().any(|p| p.op != 5) || sent != data {
+                        return Err(format!("{}: transmitted {:?}; expected RW packets carrying exactly the caller's {} bytes", what, tx.iter().map(|p| (p.op, p.len)).collect::<Vec<_>>(), n));
                     }
                     drv_sent += n as u64;
                     if was_refused {
@@ -442,7 +444,9 @@ fn stream_inner(c: &FCase, st: &mut Stats) -> Result<(), String> {
                         }
                         buffered.extend(payload.iter().copied());
                         let tx = check_tx!(what);
-                        if !tx.is_empty() {
+                        // an unsolicited credit update (its header was checked above) is the
+                        // implementation's choice; anything else is not
+                        if tx.iter().any(|p| p.op != 6) {
                             return Err(format!("{}: unexpected transmissions {:?}", what, tx.iter().map(|p| p.op).collect::<Vec<_>>()));
                         }
                     }
@@ -699,7 +703,8 @@ fn wrap_inner(c: &WCase, st: &mut Stats) -> Result<(), String> {
                 let new: Vec<Pkt> = dev.with(|d| d.h.tx[tx_seen..].to_vec());
                 tx_seen += new.len();
                 if allowed {
-                    if r.is_err() || new.len() != 1 || new[0].op != 5 || new[0].len as usize != n {
+                    // any packetisation: RW packets only whose lengths add up to the send
+                    if r.is_err() || new.iter().any(|p| p.op != 5) || new.iter().map(|p| p.len as usize).sum::<usize>() != n {
                         return Err(format!("[D8] {}: window has {} free bytes (buf_alloc {}, in flight {}) but send returned {:?} / transmitted {:?}", what, free, peer_alloc, in_flight, r, new.iter().map(|p| (p.op, p.len)).collect::<Vec<_>>()));
                     }
                     let before = tx;
